@@ -101,6 +101,12 @@ func c18ReaderScenarios(tier string) []schedScenario {
 				}
 			}
 		} else {
+			// records beyond every internal size class (pool buckets, scratch buffers): two of 1.1 MiB, uncompressed and snappy
+			for _, bk := range []string{"mmapbig-none", "mmapbig-snappy"} {
+				for _, p := range [][2]string{{"at(0)", "at(1)"}, {"at(1)", "at(1)"}, {"at(0)", "seek(0)"}} {
+					out = append(out, rdScenario{kind: bk, threads: [][]string{{p[0]}, {p[1]}}, qb: 1, tb: 2})
+				}
+			}
 			// record files of the earlier format versions take their own read paths
 			var lks []string
 			for lk := range c18LegacyFiles {
@@ -237,7 +243,12 @@ func (r rdScenario) Exec(w *core.WCtx, prefix []int) (x schedExec) {
 		call = func(name string) string { return mmapCall(mm, m, name) }
 	} else {
 		path := filepath.Join(dir, "f.rio")
-		m, _, err := rioWrite(path, []wop{{"W", rioRecIndex("a")}, {"W", rioRecIndex("x918d")}, {"W", rioRecIndex("nil")}, {"W", rioRecIndex("mk00ff")}}, rioCfg{Comp: comp, WBuf: 4096}, rioAlphabet())
+		prog, alpha := []wop{{"W", rioRecIndex("a")}, {"W", rioRecIndex("x918d")}, {"W", rioRecIndex("nil")}, {"W", rioRecIndex("mk00ff")}}, rioAlphabet()
+		if kind == "mmapbig" {
+			alpha = []rioRec{{"i1153434", incompressible(1153434, 51)}, {"j1153434", incompressible(1153434, 52)}, {"a", []byte("a")}}
+			prog = []wop{{"W", 0}, {"W", 1}, {"W", 2}}
+		}
+		m, _, err := rioWrite(path, prog, rioCfg{Comp: comp, WBuf: 4096}, alpha)
 		if err != nil {
 			return schedExec{Problems: []string{"setup: " + err.Error()}}
 		}
